@@ -60,6 +60,12 @@ CHECKS = {
  "C20": dict(cat="exploration", sec="5.20", tech="controlled cooperative scheduler over the instrumented real code: exhaustive enumeration of schedules up to a preemption bound, plus a separate free-running -race pass",
    text="The repository packages are rebuilt through an overlay that inserts a yield at the entry of every function touching a mutated package-level variable (found by AST analysis) and replaces sync by a scheduler-aware version; for all 66 pairs of 11 operation kinds (each thread on its own UE context) every schedule with <=2 preemptions (quick) / <=3 and triples (thorough) is executed and each thread's output compared with the sequential one; deadlocks are violations. Because cooperative hand-offs hide races from the detector, the same bodies also run free on 2/8/64 goroutines in a binary built with -race.",
    note="only sequentially consistent interleavings at the inserted points; the -race pass is a dynamic detector (not an enumeration); G up to 64 applies to the free-running pass only"),
+ "C08": dict(cat="exploration", sec="5.8", tech="exhaustive enumeration of optional-IE subsets (all 2^k for k<=10), IE lengths, contents and wire orders per message type, with round-trip oracles",
+   text="For each of the 44 plain message types of the frozen TS 24.501 table every optional-IE subset (all 2^k for k<=10; none/all/singles/all-but-one/pairs above), every IE at boundary lengths within its capacity with three contents, mandatory LV/LV-E lengths, every permutation of up to four optional IEs and every adjacent transposition on the wire; decode(encode(m)) == m, encode(decode(canonical bytes)) == bytes, any order decodes to the same message, and all 256 message types x EPDs: unknown types are errors.",
+   note="frozen table = reviewed transcription (mc/spec/ts24501.json notes); IE values are opaque octets within capacity; SecurityProtected5GSNASMessage (an envelope, not a plain message) is covered by C06/C10"),
+ "C09": dict(cat="exploration", sec="5.9", tech="exhaustive enumeration over all (message, optional IE) pairs and constructor argument alphabets against a table-driven independent encoder/parser",
+   text="Same enumeration as C08 judged against an independent layout engine driven by the frozen TS 24.501 table: library bytes must equal the table layout (message type octet, mandatory order and widths, IEI/format/length width of all 159 optional IEs) and table-built bytes must decode to the intended values; the emulator's own NAS constructors (registration, authentication, security mode, UL NAS transport with every PSI 0..255, service, deregistration...) are parsed by the independent parser and compared with the arguments.",
+   note="frozen table reviewed against TS 24.501 clause 8 by hand; release differences kept and listed"),
 }
 
 NOT_YET = {}
